@@ -580,6 +580,54 @@ ben('b-dir-helper-duplicates', ['C01', 'C10', 'C12'], [(dirf,
 
 // Manual implementation of Clone, see: https://github.com/rust-lang/rust/issues/41481''')], 'duplicate-label guard moved into a sync helper')
 
+# ---------------------------------------------------------------- benign forms for the round-2 rules
+ben('b-tree-prev-negated', ['C11', 'C01'], [(tn,
+    '''        let previous = if is_new {
+            None
+        } else {
+            match TreeNodeWithPreviousValue::get_appropriate_tree_node_from_storage(''',
+    '''        let previous = if !is_new {
+            match TreeNodeWithPreviousValue::get_appropriate_tree_node_from_storage('''), (tn,
+    '''                Err(other) => return Err(other),
+            }
+        };''',
+    '''                Err(other) => return Err(other),
+            }
+        } else {
+            None
+        };''')], 'arms of the is_new decision swapped')
+ben('b-tree-absent-child-let', ['C01', 'C04'], (tn,
+    '''        None => TC::empty_node_hash(),''',
+    '''        None => {
+            let absent = TC::empty_node_hash();
+            absent
+        }'''), 'absent-child value bound to a local')
+ben('b-cache-flush-order', ['C13', 'C16', 'C14'], (cache,
+    '''        self.map.clear();
+        *(self.azks.write().await) = None;''',
+    '''        *(self.azks.write().await) = None;
+        self.map.clear();'''), 'the two clears of flush swapped')
+ben('b-txn-set-inline', ['C10', 'C15', 'C16'], (txn,
+    '''        let bin_id = record.get_full_binary_id();
+
+        self.mods.insert(bin_id, record.clone());''',
+    '''        self.mods.insert(record.get_full_binary_id(), record.clone());'''), 'temporary inlined')
+ben('b-dir-batch-index-loop', ['C02', 'C13'], (dirf,
+    '''        for akd_label in akd_labels {
+            // Save lookup info for later use.
+            let lookup_info = self
+                .get_lookup_info(akd_label.clone(), current_epoch)
+                .await?;
+            lookup_infos.push(lookup_info.clone());
+        }''',
+    '''        for akd_label in akd_labels.iter() {
+            // Save lookup info for later use.
+            let lookup_info = self
+                .get_lookup_info(akd_label.clone(), current_epoch)
+                .await?;
+            lookup_infos.push(lookup_info);
+        }'''), 'explicit iter(), no clone of the info')
+
 out = os.path.join(os.path.dirname(os.path.abspath(__file__)), 'benign.json')
 json.dump({'benign': B}, open(out, 'w'), indent=1)
 print('%d benign variants -> %s' % (len(B), out))
